@@ -40,7 +40,7 @@ func C03(tier string) int {
 	run := h.NewRun("C03", tier, "model_checking", "", 25*time.Minute)
 	cfgs := protocolConfigs(tier)
 	nAlpha := len(Alphabet(ref.PConfig{MaxBytes: 1}))
-	run.Rule = fmt.Sprintf("explicit-state breadth-first search over command histories: alphabet of %d abstract commands (valid / backend-rejected / malformed / out-of-order variants of HELO EHLO LHLO MAIL RCPT DATA BDAT RSET NOOP VRFY HELP AUTH STARTTLS QUIT, unknown, empty, mangled; DATA and BDAT with accepted, rejected, early-failing and panicking deliveries), %d configurations ({SMTP, LMTP plain backend, LMTP per-recipient backend} x recipient limit {0,2} x size limit {0,40} x TLS {none, available} + one configuration over implicit TLS). Every transition replays the shortest history reaching the state on a fresh REAL server in lock-step (inside a synctest bubble, real TLS handshake for STARTTLS) plus one command, and is compared with the reference protocol model (ref/protocol.go). States are deduplicated by (private-state dump of the real Conn, model state); search runs to the fixpoint. Merge audit: for every state one history that the key merged into it at the first level and the longest one that ever arrived are extended by two probe sequences and judged against the model too (counter merge_audit_histories). distinct = transitions; non-trivial = all (every transition executes the real handler).", nAlpha, len(cfgs))
+	run.Rule = fmt.Sprintf("explicit-state breadth-first search over command histories: alphabet of %d abstract commands (valid / backend-rejected / malformed / out-of-order variants of HELO EHLO LHLO MAIL RCPT DATA BDAT RSET NOOP VRFY HELP AUTH STARTTLS QUIT, unknown, empty, mangled; DATA and BDAT with accepted, rejected, early-failing and panicking deliveries), %d configurations ({SMTP, LMTP plain backend, LMTP per-recipient backend} x recipient limit {0,2} x size limit {0,40} x TLS {none, available} + one configuration over implicit TLS). Every transition replays the shortest history reaching the state on a fresh REAL server in lock-step (inside a synctest bubble, real TLS handshake for STARTTLS) plus one command, and is compared with the reference protocol model (ref/protocol.go). States are deduplicated by (private-state dump of the real Conn, model state); search runs to the fixpoint. Merge audit: for every state one history that the key merged into it at the first level and the longest one that ever arrived are extended by two probe sequences and judged against the model too (counter merge_audit_histories). Plus 7 histories per configuration that end an open chunked transfer (RSET, greeting, QUIT, over-limit chunk, nested MAIL, NOOP, DATA) with a backend that needs 20 virtual seconds to abandon a delivery (no other callback of the session begins before Session.Data has returned). distinct = transitions; non-trivial = all (every transition executes the real handler).", nAlpha, len(cfgs))
 	run.Assumptions = []string{
 		"counters that the code only compares with small constants are capped in the state key: len(recipients) at 3, bytesReceived ignored when no size limit is set",
 		"a nested MAIL may be processed or refused; DATA after a MAIL that declared BODY=BINARYMIME may be refused or processed (C03 does not speak about either)",
@@ -60,5 +60,58 @@ func C03(tier string) int {
 		run.Counter("max_depth", int64(st.MaxDepth))
 		fmt.Printf("  config %+v: states=%d transitions=%d depth=%d closed-edges=%d\n", pc, st.States, st.Transitions, st.MaxDepth, st.Closed)
 	}
+	// a backend that needs 20 virtual seconds to abandon a delivery whose reader failed: whatever ends the transfer
+	// (RSET, a new greeting, QUIT, a failing chunk) waits for Session.Data to return before any other callback of the
+	// session begins (the overlap is recorded by the backend itself), and the model holds as with a prompt backend
+	for _, pc := range cfgs {
+		hello := "EHLO c1"
+		if pc.LMTP {
+			hello = "LHLO c1"
+		}
+		if pc.ImplicitTLS {
+			continue
+		}
+		for _, ender := range []string{"RSET", hello, "QUIT", "BDAT over limit", "MAIL ok", "NOOP", "DATA accept-d1"} {
+			c := C03SlowCase{PC: pc, Names: []string{hello, "MAIL ok", "RCPT a", "BDAT accept-c1", ender, "RSET", "MAIL ok", "RCPT b", "DATA accept-d1", "NOOP"}}
+			f := evalC03Slow(c)
+			run.Eval(true)
+			run.Trace(1)
+			if f != nil {
+				run.Violate("c03-slow-abort", c, f, func() *h.Finding { return evalC03Slow(c) })
+				run.Outcome("violation:" + f.Sig)
+			} else {
+				run.Outcome("slow-abort-ok")
+			}
+		}
+	}
 	return run.Finish()
 }
+
+type C03SlowCase struct {
+	PC    ref.PConfig `json:"config"`
+	Names []string    `json:"names"`
+}
+
+// evalC03Slow runs one history (names of the shared alphabet; a name the configuration does not have is skipped) with
+// a backend that needs 20 virtual seconds to abandon a delivery, against the model.
+func evalC03Slow(c C03SlowCase) *h.Finding {
+	alpha := Alphabet(c.PC)
+	idx := map[string]int{}
+	for i, a := range alpha {
+		idx[a.Name] = i
+	}
+	var hist []int
+	for _, n := range c.Names {
+		if i, ok := idx[n]; ok {
+			hist = append(hist, i)
+		}
+	}
+	opts := &lockOpts{Backend: func(be *h.Backend) { be.SlowAbort = 20 * time.Second }, Patience: 30 * time.Second, Settle: true}
+	r := runLockstepOpt("c03", c.PC, alpha, hist, opts)
+	if r.Finding != nil {
+		r.Finding.What = "(backend that takes 20 s to abandon a delivery) " + r.Finding.What
+	}
+	return r.Finding
+}
+
+func init() { h.RegisterReplayer("c03-slow-abort", evalC03Slow) }
